@@ -12,6 +12,7 @@ func init() {
 	verifHarnesses["VerifC18_Fields"] = VerifC18_Fields
 	verifHarnesses["VerifC18_FieldsNested"] = VerifC18_FieldsNested
 	verifHarnesses["VerifC18_Services"] = VerifC18_Services
+	verifHarnesses["VerifC18_TypedefShapes"] = VerifC18_TypedefShapes
 	verifHarnesses["VerifC18_EnumsScopes"] = VerifC18_EnumsScopes
 }
 
@@ -28,9 +29,9 @@ func verifParseFrugal(file string) (*Frugal, error) {
 	return verifModels[file], nil
 }
 
-func verifNewFrugal(name string, typedefTarget string) *Frugal {
+func verifNewFrugal(name string, typedefTarget *Type) *Frugal {
 	f := &Frugal{Name: name, ParsedIncludes: map[string]*Frugal{}}
-	td := &TypeDef{Name: "T32", Type: &Type{Name: typedefTarget}}
+	td := &TypeDef{Name: "T32", Type: typedefTarget}
 	f.Typedefs = []*TypeDef{td}
 	f.typedefIndex = map[string]*TypeDef{"T32": td}
 	f.namespaceIndex = map[string]*Namespace{}
@@ -54,6 +55,26 @@ func verifScalarName() string {
 	return []string{"i32", "i64"}[verifChoice(2)]
 }
 
+// verifTypedefTarget is what the typedef T32 stands for: a scalar, or (wide) a
+// container whose element type can differ between the old and the new program.
+func verifTypedefTarget(wide bool) *Type {
+	n := 2
+	if wide {
+		n = 5
+	}
+	switch verifChoice(n) {
+	case 1:
+		return &Type{Name: "i64"}
+	case 2:
+		return &Type{Name: "list", ValueType: &Type{Name: "i32"}}
+	case 3:
+		return &Type{Name: "list", ValueType: &Type{Name: "i64"}}
+	case 4:
+		return &Type{Name: "map", KeyType: &Type{Name: "i32"}, ValueType: &Type{Name: "i64"}}
+	}
+	return &Type{Name: "i32"}
+}
+
 // verifType builds a scalar, or (levels > 0) a list / map around a smaller type.
 func verifType(levels int) *Type {
 	if levels > 0 {
@@ -68,18 +89,19 @@ func verifType(levels int) *Type {
 }
 
 // verifResolve is the oracle's own typedef resolution.
-func verifResolve(name, typedefTarget string) string {
-	if name == "T32" {
+func verifResolve(t, typedefTarget *Type) *Type {
+	if t != nil && t.Name == "T32" {
 		return typedefTarget
 	}
-	return name
+	return t
 }
 
-func verifSameType(a, b *Type, ta, tb string) bool {
+func verifSameType(a, b *Type, ta, tb *Type) bool {
+	a, b = verifResolve(a, ta), verifResolve(b, tb)
 	if a == nil || b == nil {
 		return a == nil && b == nil
 	}
-	if verifResolve(a.Name, ta) != verifResolve(b.Name, tb) {
+	if a.Name != b.Name {
 		return false
 	}
 	return verifSameType(a.KeyType, b.KeyType, ta, tb) && verifSameType(a.ValueType, b.ValueType, ta, tb)
@@ -119,7 +141,7 @@ func verifFieldList(fs ...*Field) []*Field {
 type verifVerdict struct{ mustFail, unspecified bool }
 
 // verifFieldsVerdict is the reference judgement for two field lists (ids unique within a list).
-func verifFieldsVerdict(oldFs, newFs []*Field, to, tn string) verifVerdict {
+func verifFieldsVerdict(oldFs, newFs []*Field, to, tn *Type) verifVerdict {
 	var v verifVerdict
 	for _, o := range oldFs {
 		var n *Field
@@ -182,7 +204,8 @@ func verifJudge(failed bool, v verifVerdict) {
 
 // (1) fields of a struct / exception / union / method arguments / throws clause.
 func VerifC18_Fields() {
-	to, tn := verifScalarName(), verifScalarName() // what typedef T32 means in the old and new program
+	wide := verifBound() > 0
+	to, tn := verifTypedefTarget(wide), verifTypedefTarget(wide) // what typedef T32 means in the old and new program
 	oldF, newF := verifNewFrugal("p", to), verifNewFrugal("p", tn)
 	extra := verifParam() / 5 // 0: one field slot; 1/2/3: a second, plain field in old / new / both
 	oldFs := verifFieldList(verifField(true), verifPlainField(extra == 1 || extra == 3))
@@ -217,6 +240,34 @@ func VerifC18_Fields() {
 // separate entry so that the tiers can bound it differently.
 func VerifC18_FieldsNested() { VerifC18_Fields() }
 
+// (1b) a typedef whose meaning changes between the programs (scalar, list or
+// map, element types differing), used as a field type, a return type, an
+// argument type and a scope operation type at once; everything else identical.
+func VerifC18_TypedefShapes() {
+	to, tn := verifTypedefTarget(true), verifTypedefTarget(true)
+	oldF, newF := verifNewFrugal("p", to), verifNewFrugal("p", tn)
+	where := verifParam()
+	mk := func(f *Frugal) {
+		t := &Type{Name: "T32"}
+		switch where {
+		case 0:
+			f.Structs = []*Struct{{Name: "S_1", Fields: []*Field{{ID: 1, Name: "a", Modifier: Default, Type: t}}}}
+		case 1:
+			f.Services = []*Service{{Name: "Svc", Methods: []*Method{{Name: "m", ReturnType: t}}}}
+		case 2:
+			f.Services = []*Service{{Name: "Svc", Methods: []*Method{{Name: "m", Arguments: []*Field{{ID: 1, Name: "a", Modifier: Default, Type: &Type{Name: "list", ValueType: t}}}}}}}
+		case 3:
+			f.Scopes = []*Scope{{Name: "Ev", Prefix: &ScopePrefix{String: ""}, Operations: []*Operation{{Name: "Op", Type: t}}}}
+		}
+	}
+	mk(oldF)
+	mk(newF)
+	var v verifVerdict
+	v.mustFail = !verifSameType(&Type{Name: "T32"}, &Type{Name: "T32"}, to, tn)
+	verifJudge(verifAudit(oldF, newF), v)
+	verifReach("end")
+}
+
 func verifRetType() *Type {
 	if verifNondetBool() {
 		return nil // void
@@ -243,7 +294,7 @@ func verifThrows(present bool) []*Field {
 
 // (2) services and methods: removal, oneway, extends, return type, exception set of void methods.
 func VerifC18_Services() {
-	to, tn := verifScalarName(), verifScalarName()
+	to, tn := verifTypedefTarget(false), verifTypedefTarget(false)
 	oldF, newF := verifNewFrugal("p", to), verifNewFrugal("p", tn)
 	om := &Method{Name: "m", Oneway: verifNondetBool(), ReturnType: verifRetType(), Exceptions: verifThrows(verifNondetBool())}
 	nm := &Method{Name: "m", Oneway: verifNondetBool(), ReturnType: verifRetType(), Exceptions: verifThrows(verifNondetBool())}
@@ -328,7 +379,7 @@ func verifNormPrefix(p *ScopePrefix) string {
 
 // (3) enums, scopes, constants, namespaces.
 func VerifC18_EnumsScopes() {
-	to, tn := verifScalarName(), verifScalarName()
+	to, tn := verifTypedefTarget(false), verifTypedefTarget(false)
 	oldF, newF := verifNewFrugal("p", to), verifNewFrugal("p", tn)
 	var v verifVerdict
 	switch verifParam() {
@@ -379,7 +430,7 @@ func VerifC18_EnumsScopes() {
 			}
 			if !opKept {
 				v.mustFail = true
-			} else if verifResolve(ot, to) != verifResolve(nt, tn) {
+			} else if !verifSameType(&Type{Name: ot}, &Type{Name: nt}, to, tn) {
 				v.mustFail = true // retyped operation
 			}
 		} else {
